@@ -50,6 +50,7 @@ import EPV.Gen.Cog18
 import EPV.Gen.Cog19
 import EPV.Gen.Cog21
 import EPV.Lemmas.UnitsHydro
+import EPV.Lemmas.HydroUnitsRobust
 
 set_option linter.all false
 
